@@ -239,6 +239,8 @@ class ExprMixin:
     def to_str(self, v: Val) -> Val:
         if v.ty.kind == "str":
             return v
+        if v.is_py and isinstance(v.t, Exc):
+            return Val(STR, z3.String(fresh_name("exc_str")))      # str(exception): an opaque message
         if v.is_py:
             if isinstance(v.t, (str, int, type(None))) or type(v.t).__str__ is not object.__str__:
                 return Val(STR, z3.StringVal(str(v.t)))
